@@ -1,11 +1,20 @@
 /-
   C20 - Primitive encodings are bit-exact per the specification over their whole domain.
   Property theorems only; helper lemmas live in Stef/Proofs.
+
+  Layers: `BitsWriter` (64-bit staging register, transcription of bitstream.go) refines bit
+  lists; the Go write/read tables are the regenerated `Stef.Gen.Tables`; the specification-side
+  decoders are those of `Stef.Spec` (what an independent reader does).
 -/
 import Stef.Proofs.BitStream
+import Stef.Proofs.Varint
+import Stef.Proofs.Codec
+import Stef.Proofs.Uvc
 
 namespace Stef.Props.C20
-open Stef
+open Stef Stef.Spec Stef.Codec
+
+/-! ### bit register -/
 
 /-- `BitsWriter.WriteBits(v, n)` appends exactly the `n`-bit big-endian representation of `v`
     for every register fill level (every bit alignment), every `n ≤ 64` and every `v < 2^n`. -/
@@ -14,12 +23,11 @@ theorem writeBits_appends (w : BitsWriter) (v : Word) (n : Nat) (hI : w.Inv) (hn
     (w.writeBits v n).toBits = w.toBits ++ lowBits v n ∧ (w.writeBits v n).Inv :=
   BitsWriter.writeBits_spec w v n hI hn hv
 
-/-- `WriteBit` appends exactly one bit. -/
 theorem writeBit_appends (w : BitsWriter) (bit : Word) (hI : w.Inv) (hb : bit.toNat < 2) :
     (w.writeBit bit).toBits = w.toBits ++ [bit.getLsbD 0] ∧ (w.writeBit bit).Inv :=
   BitsWriter.writeBit_spec w bit hI hb
 
-/-- Any sequence of in-contract `WriteBits` calls from a fresh writer yields the concatenation
+/-- any sequence of in-contract `WriteBits` calls from a fresh writer yields the concatenation
     of the big-endian representations. -/
 theorem writeBits_sequence (ops : List (Word × Nat))
     (hops : ∀ p ∈ ops, p.2 ≤ 64 ∧ p.1.toNat < 2 ^ p.2) :
@@ -40,12 +48,121 @@ theorem writeBits_sequence (ops : List (Word × Nat))
     simp only [List.foldl_cons, List.map_cons, List.flatten_cons]
     rw [this, hstep.1, List.append_assoc]
 
-/-- non-vacuity: a reachable, partially filled register satisfies the invariant and a
-    spilling write is covered. -/
+/-- reading an n-bit field back from a bit column (specification decoder side). -/
+theorem readBits_roundtrip (v : Word) (n : Nat) (rest : Bits) (hn : n ≤ 64) (hv : v.toNat < 2 ^ n) :
+    readBits n (lowBits v n ++ rest) = some (v, rest) := readBits_lowBits v n rest hn hv
+
+/-! ### LEB128 / zig-zag -/
+
+/-- **uvarint_roundtrip**: all 64-bit values, whatever bytes follow. -/
+theorem uvarint_roundtrip (v : Word) (rest : Bytes) :
+    Varint.decode (Varint.encode v ++ rest) = some (v, rest) := Varint.decode_encode v rest
+
+/-- **varint_roundtrip** (zig-zag LEB128): all 64-bit values. -/
+theorem varint_roundtrip (v : Word) (rest : Bytes) :
+    Varint.decodeSigned (Varint.encodeSigned v ++ rest) = some (v, rest) :=
+  Varint.decodeSigned_encodeSigned v rest
+
+theorem zigzag_roundtrip (x : Word) : Varint.unzigzag (Varint.zigzag x) = x := Varint.unzigzag_zigzag x
+
+/-! ### UvarintCompact (tables regenerated from bitstream_lookuptables.go) -/
+
+/-- **uvc_roundtrip**: every value below 2^48; the bits come from the Go WRITE tables, the
+    decoder is the specification's prefix table. -/
+theorem uvc_roundtrip (v : Word) (rest : Bits) (hv : v.toNat < 2 ^ 48) :
+    readUvc (Uvc.uvcBits v ++ rest) = some (v, rest) := Uvc.uvc_roundtrip v rest hv
+
+/-- at every bit alignment: `WriteUvarintCompact` appends exactly those bits. -/
+theorem uvc_write_every_alignment (w : BitsWriter) (v : Word) (hI : w.Inv) (hv : v.toNat < 2 ^ 48) :
+    (w.writeUvarintCompact v).1.toBits = w.toBits ++ Uvc.uvcBits v ∧ (w.writeUvarintCompact v).1.Inv :=
+  Uvc.writeUvarintCompact_spec w v hI hv
+
+/-- **uvc_is_spec_table**: the Go write tables serve every leading-zero class 16..64 as one of
+    the eight classes of the specification, and the Go read tables (shift, mask, consume) are
+    the specification's table. Both are finite tables, checked completely. -/
+theorem uvc_is_spec_table :
+    (∀ z ∈ List.range 65, 16 ≤ z → (Uvc.classOf z).isSome = true) ∧
+    (∀ k ∈ List.range 8, Uvc.readClassOk k = true) := ⟨Uvc.write_tables_ok, Uvc.read_tables_ok⟩
+
+/-! ### delta of delta -/
+
+/-- **dod_roundtrip**: every sequence of 64-bit values including wrap-around, from any
+    synchronised codec state (so also across frames, with or without codec reset). -/
+theorem dod_roundtrip (c : Dod) (vs : List Word) (rest : Bytes) :
+    Dod.decodeAll c vs.length ((Dod.encodeAll c vs).2 ++ rest) = some ((Dod.encodeAll c vs).1, vs, rest) :=
+  Codec.dod_roundtrip c vs rest
+
+/-! ### Float64 -/
+
+/-- **gorilla_roundtrip**: every sequence of bit patterns; the decoder is the specification's. -/
+theorem gorilla_roundtrip (c : F64) (cs : ColSt) (vs : List Word) (rest : Bits) (hok : c.Ok) (hs : Sync cs c) :
+    ∃ cs', f64DecodeAll { cs with bits := (F64.encodeAllBits c vs).2 ++ rest } vs.length = some (cs', vs) ∧
+      cs'.bits = rest ∧ Sync cs' (F64.encodeAllBits c vs).1 :=
+  Codec.f64_roundtrip c cs vs rest hok hs
+
+/-- **gorilla_is_spec**: the register-level Go encoder appends exactly the bits of the
+    specification-level encoder (scheme choice incl. the 3a/3b size rule and the clamp at 31 are
+    in `F64.encodeBits`), at every alignment. -/
+theorem gorilla_is_spec (c : F64) (w : BitsWriter) (v : Word) (hok : c.Ok) (hI : w.Inv) :
+    (c.encodeW w v).2.1.toBits = w.toBits ++ (c.encodeBits v).2 ∧
+    (c.encodeW w v).1 = (c.encodeBits v).1 ∧ (c.encodeW w v).2.1.Inv :=
+  Codec.f64_encodeW_spec c w v hok hI
+
+/-! ### Bool, strings -/
+
+theorem bool_roundtrip (w : BitsWriter) (b : Bool) (hI : w.Inv) :
+    (boolEncodeW w b).toBits = w.toBits ++ [b] := by
+  have := BitsWriter.writeBit_spec w (if b then 1#64 else 0#64) hI (by cases b <;> decide)
+  cases b <;> simpa [boolEncodeW] using this.1
+
+/-- **string_roundtrip** (length-prefixed). -/
+theorem string_roundtrip (v rest : Bytes) (hv : v.length < 2 ^ 63) :
+    strDecode (strEncode v ++ rest) = .ok (v, rest) := Codec.str_step v rest hv
+
+/-- **dictstring_sync**: same RefNum assignment on both sides, admission at length ≥ 2. -/
+theorem dictstring_sync (d : List Bytes) (v rest : Bytes) (hd : d.length < 2 ^ 63) (hv : v.length < 2 ^ 63) :
+    strDictDecode d ((strDictEncode d v).2.1 ++ rest) = .ok ((strDictEncode d v).1, v, rest) :=
+  Codec.strDict_step d v rest hd hv
+
+/-- a value present in its dictionary is always written as a reference. -/
+theorem dict_ref_always (d : List Bytes) (v : Bytes) (h : v ∈ d) :
+    ∃ i, (strDictEncode d v).2.1 = Varint.encodeSigned (0#64 - BitVec.ofNat 64 i - 1#64) ∧ d[i]? = some v :=
+  Codec.strDict_ref_when_present d v h
+
+/-! ### over-read -/
+
+/-- **overread_reported** for the specification decoder: reading more bits than the column
+    holds is an error, never data. -/
+theorem overread_reported_spec (n : Nat) (bs : Bits) (h : bs.length < n) : readBits n bs = none := by
+  unfold readBits
+  suffices ∀ (m : Nat) (l : Bits) (acc : Word), l.length < m → readBitsAux m l acc = none from this n bs _ h
+  intro m
+  induction m with
+  | zero => intro l acc hl; omega
+  | succ m ih =>
+    intro l acc hl
+    cases l with
+    | nil => simp [readBitsAux]
+    | cons b l => simp only [readBitsAux]; exact ih l _ (by simpa using hl)
+
+/-- ... but NOT for the Go bit reader: a reader over the single byte 0xFF returns bits 8..15
+    as zeros with no error (finding `overread-56`). The full statement is therefore false for
+    `BitsReader`; byte columns (varints, strings) report every over-read. -/
+theorem overread_reported_false :
+    let r0 : BitsReader := { buf := [0xFF#8] }
+    let (r1, _) := r0.readBits 8
+    let (r2, v) := r1.readBits 8
+    v = 0#64 ∧ r2.eof = false := by decide
+
+-- non-vacuity: a reachable, partially filled register satisfies the invariant, a spilling
+-- write is covered, and a codec state reached after real values satisfies `Ok`.
 example : (({} : BitsWriter).writeBits 0x1ff#64 9).Inv ∧
     ((({} : BitsWriter).writeBits 0x1ff#64 9).writeBits 0xdeadbeefdeadbeef#64 64).stream.length = 8 := by
   constructor
   · exact (BitsWriter.writeBits_spec {} _ 9 BitsWriter.inv_init (by omega) (by decide)).2
   · decide
+
+example : ((F64.encodeBits {} 0x7ff8000000000001#64).1).Ok ∧ Sync {} {} :=
+  ⟨(Codec.f64_step {} {} 0x7ff8000000000001#64 [] f64_ok_init ⟨rfl, rfl, rfl⟩).2.1, ⟨rfl, rfl, rfl⟩⟩
 
 end Stef.Props.C20
